@@ -183,6 +183,7 @@ static Result run_bfs(const json &c) {
     return r;
   }
   classify(g, r);
+  if (c.value("reexplore", false)) r.cls("graph-object-labelled-before");
   vt::Graph graph = make_graph(g);
   std::vector<int> starts = c.value("starts", std::vector<int>{});
   if (starts.empty())
@@ -191,6 +192,12 @@ static Result run_bfs(const json &c) {
     if (s < 0 || s >= g.n) continue;
     std::vector<int> d = ref_bfs(g, s);
     vt::Graph gc = graph;
+    if (c.value("reexplore", false) && g.n > 1) {
+      // history: the same Graph object has been labelled from another start vertex before
+      vt::GraphDistVisitor v0;
+      v0.setStartingVertex(g.ids[size_t((s + 1 + g.n / 2) % g.n)]);
+      vt::exploreGraph(gc, v0);
+    }
     vt::GraphDistVisitor v;
     v.setStartingVertex(g.ids[size_t(s)]);
     vt::exploreGraph(gc, v);
@@ -210,6 +217,9 @@ static Result run_bfs(const json &c) {
       } catch (const std::invalid_argument &) {
         got = -1;
       }
+      // the statement is about reachable vertices; an unreachable vertex of a graph that was labelled before keeps
+      // whatever label it had (not asserted)
+      if (!reach && c.value("reexplore", false)) continue;
       if (got != d[size_t(u)]) {
         r.fail("GraphDistVisitor/distance",
                describe(g) + fmt(": start %ld, vertex %ld labelled Dist=%ld, shortest path has %d hops", g.ids[size_t(s)], id, got, d[size_t(u)]));
@@ -818,6 +828,7 @@ static json gen_graph_sized(int max_n) {
     for (int i = 0; i < 6; ++i) st.push_back(ri(0, n - 1));
     c["starts"] = st;
   }
+  c["reexplore"] = rbool(35);
   return c;
 }
 static void add_relabel(json &c) {
